@@ -323,6 +323,7 @@ func runForgery(c *evid.Case) {
 			err := c2.Deliver(nd, forged2, true)
 			instAfter := snapshot(nd, forged2.Message.Height)
 			c.Count("forgery_cases", 1)
+			c.AddEvaluations(1)
 			c.Nontrivial(evid.Hash("forgery", mu.name, stName, n, k))
 			c.Distinct("forgery_mutation_x_state", evid.Hash(mu.name, stName, n))
 			bad := ""
